@@ -313,7 +313,35 @@ impl CrashLens {
                 o.insert("read_error".into(), json!(e));
             }
         }
-        let _ = srv::stop(inc, false);
+        // the recovered server is shut down gracefully and started once more: what it served (including the message accepted
+        // after the recovery) must still be there - a recovery that leaves the files misaligned shows only now
+        let _ = srv::stop(inc, true);
+        if base.get("read_after").is_some() {
+            let config = srv::build_config(work, &scn.cfg, srv::ENC_KEY_A);
+            let o = base.as_object_mut().unwrap();
+            match srv::start(config, &scn.cfg, false) {
+                Err(e) => {
+                    o.insert("again".into(), json!(if e.contains("panic") { "panic" } else { "failed" }));
+                }
+                Ok(inc2) => {
+                    let r: Result<Vec<Value>, String> = (|| {
+                        let c = inc2.rt.block_on(srv::tcp_root(inc2.tcp))?;
+                        let pm = inc2.rt.block_on(c.poll_messages(&s1, &t1, Some(1), &obsc, &PollingStrategy::offset(0), 100000, false)).map_err(|e| format!("poll: {e}"))?;
+                        Ok(pm.messages.iter().map(|m| json!([m.offset, parse_m(&m.payload)])).collect())
+                    })();
+                    match r {
+                        Ok(v) => {
+                            o.insert("again".into(), json!("ok"));
+                            o.insert("read_again".into(), json!(v));
+                        }
+                        Err(e) => {
+                            o.insert("again".into(), json!(format!("unreadable: {e}")));
+                        }
+                    }
+                    let _ = srv::stop(inc2, false);
+                }
+            }
+        }
         base
     }
 }
